@@ -252,11 +252,15 @@ PROPS['C16'] = dict(
           'advanced + 1 (+1 more for a failed lookup, which re-reads the one name it overshot, and for get_raw/to_writer, which scan twice), token callbacks '
           '<= input length + 1 for every call incl. verify, and the cursor never moves backwards except by restarting calls (init/reset/verify/print/'
           'to_string). A watchdog (libFuzzer -timeout=10, rapidcheck job cap + 10 s replay) reports a hang only after three confirming replays of the saved '
-          'case. Non-trivial iff some call advanced over >= 2 tokens without returning to the caller; distinct = hash(document, op kinds).'),
+          'case. Second oracle (work harness, library built with trace-pc-guard edge callbacks counted by the harness): on 16 size-scaled '
+          'families measured at n, 2n, 4n the edge-count increment from 2n to 4n must not exceed 2.6x the increment from n to 2n. '
+          'Non-trivial iff some call advanced over >= 2 tokens without returning to the caller (work harness: every scaling triple); distinct = hash(document, op kinds) / (family, n).'),
     tiers=dict(
-        quick=[enum(shards=4, variant='san'), rc(100000, shards=6, max_size=250, corpus=CORPUS, hang_is_violation=True, timeout=400),
+        quick=[enum(shards=4, variant='san'), enum(shards=2, variant='cov', harness='work', tag='work'), rc(3000, shards=1, max_size=60, variant='cov', harness='work', tag='work'),
+               rc(100000, shards=6, max_size=250, corpus=CORPUS, hang_is_violation=True, timeout=400),
                fuzz(350000, shards=10, corpus=CORPUS, unit_timeout=10, timeouts_count=True)],
-        thorough=[enum(shards=8, variant='san'), rc(600000, shards=4, max_size=500, corpus=CORPUS, hang_is_violation=True, timeout=3000),
+        thorough=[enum(shards=8, variant='san'), enum(shards=4, variant='cov', harness='work', tag='work'), rc(60000, shards=2, max_size=60, variant='cov', harness='work', tag='work'),
+                  rc(600000, shards=4, max_size=500, corpus=CORPUS, hang_is_violation=True, timeout=3000),
                   fuzz(5000000, shards=12, max_len=4096, corpus=CORPUS, unit_timeout=10, timeouts_count=True)],
     ),
 )
